@@ -197,3 +197,52 @@ Definition spec_eqb (a b : ispec) : bool :=
   forallb (fun kv => match dget (is_bound b) (fst kv) with Some v => val_eqb (snd kv) v | None => false end) (is_bound a).
 Definition either_spec (lo hi real : ispec) : bool := spec_eqb lo real || spec_eqb hi real.
 Definition either_vres (m : vres * vres) (real : vres) : bool := vres_eqb (fst m) real || vres_eqb (snd m) real.
+
+(* The worklist of _active_from_selection decides PER GATE TARGET whether the target's descendants join the scope (they do iff
+   the target is not yet marked when its gate is popped, which depends on set iteration order).  `active_from_selection` above
+   has the two uniform extremes; here the choice is a set S of targets whose descendants are taken, and a reported spec is
+   admissible when SOME S explains it (S = all targets is the `true` extreme, S = [] the `false` one). *)
+Definition active_from_selection_s (Ts : list name) (nodes : list node) (act : list name) (sel : list name) : list name :=
+  let producers := map n_name (List.filter (fun n => pos_in (n_name n) act &&
+                                              existsb (fun o => pos_in o sel) (n_outputs n)) nodes) in
+  match producers with
+  | [] => []
+  | _ =>
+      let es := induced (all_edges nodes) act in
+      let k := length nodes in
+      let step := fun needed =>
+        let with_preds := fold_left (fun acc x => union acc (List.filter (fun y => pos_in y act) (preds es x))) needed needed in
+        let gate_t := flat_map (fun n => if is_gate n && pos_in (n_name n) needed
+                                         then List.filter (fun t => pos_in t act) (gate_targets n) else []) nodes in
+        union (union with_preds gate_t) (reach_in es k (List.filter (fun t => pos_in t Ts) gate_t)) in
+      iterate (S k) step producers
+  end.
+
+Definition input_spec_s (Ts : list name) (nodes : list node) (bound : dict val) (nested_bound : dict val)
+           (eps sel : option (list name)) : ispec :=
+  let a0 := match eps with None => names_of nodes | Some e => active_from_entrypoints nodes e end in
+  let act := match sel with None => a0 | Some s => active_from_selection_s Ts nodes a0 s end in
+  let an := act_nodes nodes act in
+  let ep := edge_produced nodes act in
+  let entry := entrypoints nodes act bound in
+  let entry_params := flat_map snd entry in
+  let params := dedup (flat_map n_inputs an) [] in
+  let free := List.filter (fun p => negb (pos_in p entry_params) && negb (pos_in p ep)) params in
+  let opt := List.filter (fun p => dmem bound p || any_default an p) free in
+  let req := List.filter (fun p => negb (dmem bound p || any_default an p)) free in
+  mk_ispec req opt entry (dupdate bound (List.filter (fun kv => negb (dmem bound (fst kv))) nested_bound)).
+
+Fixpoint sublists (l : list name) : list (list name) :=
+  match l with
+  | [] => [[]]
+  | x :: r => let rs := sublists r in rs ++ map (cons x) rs
+  end.
+
+Definition all_gate_targets (nodes : list node) : list name :=
+  dedup (flat_map (fun n => if is_gate n then gate_targets n else []) nodes) [].
+
+(* some per-target choice explains the reported spec (at most 2^6 choices are tried; beyond that the two extremes) *)
+Definition some_scope_spec (nodes : list node) (bound nested_bound : dict val) (eps sel : option (list name)) (real : ispec) : bool :=
+  let ts := all_gate_targets nodes in
+  let choices := if Nat.leb (length ts) 6 then sublists ts else [[]; ts] in
+  existsb (fun Ts => spec_eqb (input_spec_s Ts nodes bound nested_bound eps sel) real) choices.
